@@ -163,6 +163,14 @@ func (e *Enc) assert(t string) {
 	e.items = append(e.items, item{t, e.curBlock})
 }
 
+// assertGlobal: a fact that does not belong to a program point (definitions of spec symbols, string literals).
+func (e *Enc) assertGlobal(t string) {
+	if t == "" || t == "true" {
+		return
+	}
+	e.items = append(e.items, item{t, -1})
+}
+
 func (e *Enc) assume(guard, t string) {
 	if t == "" || t == "true" {
 		return
@@ -227,7 +235,10 @@ func (e *Enc) heapInit(name, sort string) string {
 	c := "H0_" + name
 	if !e.declared[c] {
 		e.decl(c, sort)
+		saved := e.curBlock
+		e.curBlock = -1 // typing invariant of the entry heap: not tied to the block that first reads it
 		e.heapWf(name, c, "alloc0")
+		e.curBlock = saved
 	}
 	return c
 }
@@ -506,10 +517,10 @@ func (e *Enc) strLit(s string) string {
 	n := fmt.Sprintf("strlit_%d", len(e.strLits))
 	e.strLits[s] = n
 	e.decl(n, sStr)
-	e.assert(fmt.Sprintf("(= (slen %s) %d)", n, len(s)))
+	e.assertGlobal(fmt.Sprintf("(= (slen %s) %d)", n, len(s)))
 	if len(s) <= 64 {
 		for i := 0; i < len(s); i++ {
-			e.assert(fmt.Sprintf("(= (sat %s %d) %d)", n, i, s[i]))
+			e.assertGlobal(fmt.Sprintf("(= (sat %s %d) %d)", n, i, s[i]))
 		}
 	}
 	return n
